@@ -241,3 +241,33 @@ theorem invalid_rates_is_generated (ri ro : Nat) :
 theorem constructors_validate_first : ∀ e ∈ Ctor.ctorValidatesFirst, e.2 = 1 := by decide
 theorem constructors_validate_first_all : Ctor.ctorValidatesFirst.map (·.1) = [0, 1, 2, 3, 4, 5, 6] := by decide
 end Rubato.CtorTie
+
+/-! ### G18: what an asynchronous call reports and leaves behind -/
+namespace Rubato.StorageTie
+open Rubato Rubato.Gen
+variable {ρ : Type} [RNum ρ]
+
+/-- after every asynchronous call the ratio is the target (a ramp lasts exactly one call); the fixed-input types report
+`(chunk_size, n)` with `n` the frame counter of the loop, the fixed-output types `(input_frames_used, chunk_size)` where
+`input_frames_used` is `needed_input_size` read BEFORE the next request is computed (the order is checked on the text) -/
+theorem async_tail (target : ρ) (chunk n used needed : Nat) :
+    Tail.fastIn_ratio_after target = target ∧ Tail.fastOut_ratio_after target = target ∧
+    Tail.sincIn_ratio_after target = target ∧ Tail.sincOut_ratio_after target = target ∧
+    Tail.fastIn_ret_in (ρ := ρ) chunk = chunk ∧ Tail.fastIn_ret_out (ρ := ρ) n = n ∧
+    Tail.sincIn_ret_in (ρ := ρ) chunk = chunk ∧ Tail.sincIn_ret_out (ρ := ρ) n = n ∧
+    Tail.fastOut_ret_in (ρ := ρ) used = used ∧ Tail.fastOut_ret_out (ρ := ρ) chunk = chunk ∧
+    Tail.fastOut_used (ρ := ρ) needed = needed ∧
+    Tail.sincOut_ret_in (ρ := ρ) used = used ∧ Tail.sincOut_ret_out (ρ := ρ) chunk = chunk ∧
+    Tail.sincOut_used (ρ := ρ) needed = needed :=
+  ⟨rfl, rfl, rfl, rfl, rfl, rfl, rfl, rfl, rfl, rfl, rfl, rfl, rfl, rfl⟩
+
+theorem tail_formulas_read_the_expected_fields :
+    Tail.tailParams =
+      [("fastIn_ratio_after", ["target_ratio"]), ("fastIn_ret_in", ["chunk_size"]), ("fastIn_ret_out", ["n"]),
+       ("fastOut_ratio_after", ["target_ratio"]), ("fastOut_ret_in", ["input_frames_used"]),
+       ("fastOut_ret_out", ["chunk_size"]), ("fastOut_used", ["needed_input_size"]),
+       ("sincIn_ratio_after", ["target_ratio"]), ("sincIn_ret_in", ["chunk_size"]), ("sincIn_ret_out", ["n"]),
+       ("sincOut_ratio_after", ["target_ratio"]), ("sincOut_ret_in", ["input_frames_used"]),
+       ("sincOut_ret_out", ["chunk_size"]), ("sincOut_used", ["needed_input_size"])] := by decide
+
+end Rubato.StorageTie
